@@ -543,10 +543,27 @@ def _sorted_tail(z):
     return None
 
 
+def _flag_mask_positions(m):
+    """m = (all False; m[idx] = True): the positions flagged, in increasing order without repeats = unique(idx)"""
+    if not (isinstance(m, Term) and m.op == "store" and len(m.args) == 3):
+        return None
+    base, idx, val = m.args
+    while isinstance(base, Term) and base.op == "astype" and base.args and isinstance(base.args[0], Term):
+        base = base.args[0]
+    all_false = isinstance(base, Term) and (base.op == "zeros" or (base.op == "full" and isinstance(base.args[0], Term) and base.args[0].op == "const" and base.args[0].args[0] is False))
+    is_true = isinstance(val, Term) and val.op == "const" and val.args[0] is True
+    if all_false and is_true and isinstance(idx, Term) and idx.op not in ("slice", "tuple", "const", "lv"):
+        return Term("unique", idx)
+    return None
+
+
 def _canon_idx_term(idx):
     """index terms modulo: flatnonzero(mask) used as an index == the mask; trailing full slices"""
     if not isinstance(idx, Term):
         return idx
+    fm_ = _flag_mask_positions(idx.args[0] if idx.op == "nonzero1" and idx.args else idx)
+    if fm_ is not None:
+        return fm_
     st_ = _sorted_tail(idx)
     if st_ is not None:
         return st_
@@ -583,9 +600,32 @@ def _prefix_slice(fi):
     return None
 
 
+def _nested_counts(a, b):
+    """min(#{x > s}, #{x > t}, ...) over one vector x is #{x > max(s, t, ...)}; None if a, b are not of that form"""
+    cts = []
+    for z in (a, b):
+        zs = z.kids if isinstance(z, Node) and z.op == "min" else (z,)
+        for c in zs:
+            if not (isinstance(c, Node) and c.op == "count" and len(c.kids) == 1 and isinstance(c.kids[0], Node) and c.kids[0].op == "lt" and len(c.kids[0].kids) == 2):
+                return None
+            cts.append(c.kids[0])
+    if len({id(c.kids[1]) for c in cts}) != 1:
+        return None
+    thr = []
+    for c in cts:
+        t_ = c.kids[0]
+        thr.extend(t_.kids if isinstance(t_, Node) and t_.op == "max" else (t_,))
+    uniq = sorted({id(t_): t_ for t_ in thr}.values(), key=id)
+    big = uniq[0] if len(uniq) == 1 else A("max", *uniq)
+    return A("count", A("lt", big, cts[0].kids[1]))
+
+
 def _combine_bounds(a, b):
     if a is b:
         return a
+    nc = _nested_counts(a, b)
+    if nc is not None:
+        return nc
     if isinstance(b, Node) and b.op == "min" and a in b.kids:
         return b
     if isinstance(a, Node) and a.op == "min" and b in a.kids:
@@ -803,10 +843,11 @@ class Normalizer:
             return t.args[0] in self.scalar_syms
         return False
 
-    def __init__(self, symmetric=(), scalar_syms=(), rewrite=None):
+    def __init__(self, symmetric=(), scalar_syms=(), rewrite=None, vector_syms=()):
         self.cache = {}
         self.symmetric = frozenset(symmetric)
         self.scalar_syms = set(scalar_syms)
+        self.vector_syms = set(vector_syms)  # symbols known to be 1-D: u @ (v @ M) = (v @ M) @ u for vectors u, v
         self.rewrite = rewrite
 
     def nf(self, t):
@@ -955,6 +996,8 @@ class Normalizer:
             return P_atom(A("phi", self.freeze(a[0]), wrap(x), wrap(y)))
         if op == "nonzero1" and _setdiff_pattern(t) is not None:
             return self.nf(_setdiff_pattern(t))
+        if op == "nonzero1" and len(a) == 1 and _flag_mask_positions(a[0]) is not None:
+            return self.nf(_flag_mask_positions(a[0]))
         if op == "nonzero1" and len(a) == 1 and isinstance(a[0], Term):
             # the positions of an all-true vector of extent n: arange(n)
             m_ = a[0]
@@ -976,6 +1019,11 @@ class Normalizer:
             return self.nf(Term("stack", Term("const", Fraction(0)), a[0].args[0], Term("cumsum", a[0].args[1])))
         if op == "getitem":
             base, idx = self._merge_phi_stores(a[0]), a[1]
+            # a mask built by flagging positions selects those positions, in increasing order: unique(positions)
+            if _flag_mask_positions(idx) is not None:
+                idx = _flag_mask_positions(idx)
+            elif isinstance(idx, Term) and idx.op == "tuple" and any(_flag_mask_positions(z) is not None for z in idx.args):
+                idx = Term("tuple", *[(_flag_mask_positions(z) or z) for z in idx.args])
             # x[i:i+1] selects element i and keeps a unit axis (an identity reshape)
             if isinstance(idx, Term) and idx.op == "slice1":
                 idx = idx.args[0]
@@ -1258,6 +1306,14 @@ class Normalizer:
         if op in ("amax", "amin") and len(a) == 1 and isinstance(a[0], Term) and a[0].op in ("svd_S", "rsvd_S"):
             # singular values come sorted in decreasing order: the largest is the first one
             return self.nf(Term("getitem", a[0], Term("const", Fraction(0 if op == "amax" else -1))))
+        if op == "min" and len(a) >= 2 and all(isinstance(x, Term) and x.op == "count" and len(x.args) == 1 and isinstance(x.args[0], Term) and x.args[0].op in ("lt", "gt") and len(x.args[0].args) == 2 for x in a):
+            # the number of entries above each of several thresholds, the smallest of these counts: the number of
+            # entries above the largest threshold (the sets are nested)
+            pairs = [(x.args[0].args[0], x.args[0].args[1]) if x.args[0].op == "lt" else (x.args[0].args[1], x.args[0].args[0]) for x in a]
+            if len({p_[1] for p_ in pairs}) == 1:
+                thr = sorted({p_[0] for p_ in pairs}, key=repr)
+                big = thr[0] if len(thr) == 1 else Term("max", *thr)
+                return self.nf(Term("count", Term("lt", big, pairs[0][1])))
         if op in ("min", "max"):
             kids = []
             for x in a:
@@ -1285,6 +1341,18 @@ class Normalizer:
         tag = atom[0]
         if tag == "t":
             return self.scalar(atom[1])
+        if tag == "min":
+            # min(#{s > a}, #{s > b}) = #{s > max(a, b)} (nested sets)
+            cts = []
+            for x in atom[1:]:
+                lin = list(getattr(x, "lin", ()))
+                if getattr(x, "c", None) == 0 and len(lin) == 1 and lin[0][1] == 1 and isinstance(lin[0][0], tuple) and lin[0][0][0] == "t" and isinstance(lin[0][0][1], Term) and lin[0][0][1].op == "count":
+                    cts.append(lin[0][0][1])
+            if len(cts) == len(atom) - 1 and len(cts) >= 2:
+                r_ = self.nf(Term("min", *cts))
+                a1_ = single_atom(r_)
+                if a1_ is not None and a1_.op == "count":
+                    return r_
         if tag in ("min", "max"):
             kids = sorted((wrap(self.dim_poly(x)) for x in atom[1:]), key=id)
             # flatten nested min/max of the same kind
@@ -1378,7 +1446,13 @@ class Normalizer:
                 sw = self.linear_reduce("sum", (wt,))
                 axis = ax[0][1] if ax else Fraction(0)
                 if axis == Fraction(0):
-                    return p_had(p_matmul(pw, inner), p_pow(self._as_scalar(sw), -1))
+                    prod = p_matmul(pw, inner)
+                    if self.vector_syms:
+                        # u @ (v @ M ...) for two vectors u, v is the scalar (v @ M ...) @ u: one canonical order
+                        def isvec(n_):
+                            return isinstance(n_, Node) and n_.op == "sym" and n_.kids and n_.kids[0] in self.vector_syms
+                        prod = _mk({(s_, (ch_[1:] + ch_[:1]) if (len(ch_) >= 3 and isvec(ch_[0]) and isvec(ch_[1])) else ch_): k_ for (s_, ch_), k_ in prod})
+                    return p_had(prod, p_pow(self._as_scalar(sw), -1))
                 if axis == Fraction(1):
                     return p_had(p_matmul(inner, pw), p_pow(self._as_scalar(sw), -1))
         has_w = any(isinstance(r, tuple) and r and r[0] == "weights" for r in rest)
@@ -1426,6 +1500,12 @@ class Normalizer:
                     inner2 = p_had(frozenset([((s, ()), k)]), prod)
                     out = p_add(out, self.linear_reduce("trace", (None,), cyclic=True, inner=inner2))
                     continue
+            if op == "sum" and has_axis and len(rest) == 1 and len(chain) == 1 and chain[0].op == "sum" and len(chain[0].kids) == 2 and chain[0].kids[1] == ("axis", Fraction(0)) and rest[0] == ("axis", Fraction(1)):
+                # a vector of column sums can only meet a sum along axis 1 as a row broadcast over a matrix
+                # (the normal form does not keep the broadcast): every row then sums to the grand total
+                total = A("sum", chain[0].kids[0])
+                out = p_add(out, frozenset([((_merge_s(s, frozenset([(total, ONE)])), ()), k)]))
+                continue
             if op == "sum" and has_axis and len(rest) == 1 and len(chain) >= 2:
                 # column sums of dg(w) @ R are w @ R ; row sums of R @ dg(w) are R @ w
                 ax_ = rest[0][1] if isinstance(rest[0], tuple) and rest[0][0] == "axis" else None
